@@ -61,6 +61,8 @@ struct Mode {
     junk: Option<(usize, usize, &'static str)>,
     /// `#[serde(a, b,)]`
     trailing_comma: bool,
+    /// an empty `#[serde()]` attribute in front of the lists of this attribute position
+    empty_list_at: Option<usize>,
 }
 
 const C10_JUNK: &[&str] = &[
@@ -83,6 +85,11 @@ const C10_JUNK: &[&str] = &[
     "variant_identifier",
     "alias = \"a\", alias = \"b\"",
     "bound(serialize = \"T: Clone\", deserialize = \"T: Clone\")",
+    // long non-ASCII values (whatever is done with the text of an ignored attribute must respect
+    // character boundaries)
+    "alias = \"ありがとうございますありがとうございますありがとうございますありがとうございます\"",
+    "expecting = \"eine Größenangabe in Metern, größer als null und höchstens fünfhundert – bitte prüfen\"",
+    "deserialize_with = \"a::b::c::d::e::f::g::h::i::j::k::l::m::n::o::p::q::r::s::t::u::v::ünï::ß\"",
 ];
 /// unparseable forms of KNOWN keys (known finding: the whole list is dropped)
 const C10_JUNK_KNOWN_KEY_FORMS: &[&str] = &["rename(serialize = \"a\", deserialize = \"b\")", "rename_all(serialize = \"camelCase\")"];
@@ -247,6 +254,9 @@ impl Renderer<'_> {
             }
             serde.insert(at, text.to_string());
         }
+        if self.mode.empty_list_at == Some(pos) {
+            self.out.push_str("#[serde()] ");
+        }
         let lists = if self.mode.serde_first { [("serde", serde), ("ts", ts)] } else { [("ts", ts), ("serde", serde)] };
         for (name, list) in lists {
             if list.is_empty() {
@@ -306,6 +316,29 @@ fn c10_render(item: &C10Item, mode: &Mode) -> (String, usize, bool, usize) {
     (r.out, r.moved, r.junk_next_to_supported, r.pos)
 }
 
+/// attribute positions (in rendering order) that are *fields* carrying `skip`
+fn c10_skipped_field_positions(item: &C10Item) -> Vec<usize> {
+    let mut out = vec![];
+    let mut pos = 1; // 0 = the container
+    let mut fields = |fs: &[C10Field], pos: &mut usize| {
+        for f in fs {
+            if f.attrs.iter().any(|a| a.key == "skip") {
+                out.push(*pos);
+            }
+            *pos += 1;
+        }
+    };
+    if item.is_enum {
+        for v in &item.variants {
+            pos += 1;
+            fields(&v.fields, &mut pos);
+        }
+    } else {
+        fields(&item.fields, &mut pos);
+    }
+    out
+}
+
 fn c10_expand_canon(src: &str) -> Result<Vec<String>, String> {
     match expand(src) {
         Expanded::Ok(ts) => Ok(canon(ts)),
@@ -360,7 +393,7 @@ fn c10_eval(words: &[u32], exclude: &[String], stats: Option<&mut Report>) -> Op
     let item = c10_item(words);
     let serde_on = serde_requested();
     let w = |k: usize| words.get(200 + k).copied().unwrap_or(0);
-    let plain = |spelling| Mode { spelling, split_lists: false, serde_first: false, junk: None, trailing_comma: false };
+    let plain = |spelling| Mode { spelling, split_lists: false, serde_first: false, junk: None, trailing_comma: false, empty_list_at: None };
     let (src_serde, _, _, positions) = c10_render(&item, &plain(Spelling::Serde));
     let (src_ts, moved, _, _) = c10_render(&item, &plain(Spelling::Ts));
     let (src_none, _, _, _) = c10_render(&item, &plain(Spelling::Stripped));
@@ -372,8 +405,8 @@ fn c10_eval(words: &[u32], exclude: &[String], stats: Option<&mut Report>) -> Op
         nontrivial |= moved > 0;
         result = result.or_else(|| c10_relation("all-serde == all-ts", &src_serde, &src_ts, "serde-ts-spelling-differ"));
         // split over several lists
-        let (split_serde, _, _, _) = c10_render(&item, &Mode { spelling: Spelling::Serde, split_lists: true, serde_first: false, junk: None, trailing_comma: false });
-        let (split_ts, _, _, _) = c10_render(&item, &Mode { spelling: Spelling::Ts, split_lists: true, serde_first: false, junk: None, trailing_comma: false });
+        let (split_serde, _, _, _) = c10_render(&item, &Mode { spelling: Spelling::Serde, split_lists: true, serde_first: false, junk: None, trailing_comma: false, empty_list_at: None });
+        let (split_ts, _, _, _) = c10_render(&item, &Mode { spelling: Spelling::Ts, split_lists: true, serde_first: false, junk: None, trailing_comma: false, empty_list_at: None });
         relations += 2;
         result = result.or_else(|| c10_relation("one serde list == one list per key", &src_serde, &split_serde, "split-lists-differ"));
         result = result.or_else(|| c10_relation("one ts list == one list per key", &src_ts, &split_ts, "split-lists-differ"));
@@ -384,20 +417,20 @@ fn c10_eval(words: &[u32], exclude: &[String], stats: Option<&mut Report>) -> Op
         result = result.or_else(|| c10_relation("ts(k=v1) + serde(k=v2) == ts(k=v1)", &both, &src_ts, "ts-does-not-win"));
         result = result.or_else(|| c10_relation("ts(k=v) + serde(k=v) == ts(k=v)", &both_same, &src_ts, "ts-does-not-win"));
         // the same with the serde attribute written in front of the ts attribute
-        let (both_rev, _, _, _) = c10_render(&item, &Mode { spelling: Spelling::BothTsWins, split_lists: false, serde_first: true, junk: None, trailing_comma: false });
+        let (both_rev, _, _, _) = c10_render(&item, &Mode { spelling: Spelling::BothTsWins, split_lists: false, serde_first: true, junk: None, trailing_comma: false, empty_list_at: None });
         relations += 1;
         result = result.or_else(|| c10_relation("serde(k=v2) written before ts(k=v1) == ts(k=v1)", &both_rev, &src_ts, "ts-does-not-win"));
         // a different spelling per key: ts wins key by key, the serde-only keys stay in force
         for round in 0..2 {
             let mask = w(90 + round) ^ (w(92 + round) << 16);
-            let mode = Mode { spelling: Spelling::Mixed(mask), split_lists: w(94 + round) % 3 == 0, serde_first: w(96 + round) % 2 == 0, junk: None, trailing_comma: false };
+            let mode = Mode { spelling: Spelling::Mixed(mask), split_lists: w(94 + round) % 3 == 0, serde_first: w(96 + round) % 2 == 0, junk: None, trailing_comma: false, empty_list_at: None };
             let (mixed, _, _, _) = c10_render(&item, &mode);
             relations += 1;
             result = result.or_else(|| c10_relation("per-key mixture of serde / ts / both spellings == all-ts", &mixed, &src_ts, "mixed-spellings-differ"));
         }
         // a trailing comma in the serde lists
         if !exclude.iter().any(|e| e == "serde-list-with-trailing-comma-dropped") {
-            let (trailing, _, _, _) = c10_render(&item, &Mode { spelling: Spelling::Serde, split_lists: false, serde_first: false, junk: None, trailing_comma: true });
+            let (trailing, _, _, _) = c10_render(&item, &Mode { spelling: Spelling::Serde, split_lists: false, serde_first: false, junk: None, trailing_comma: true, empty_list_at: None });
             relations += 1;
             result = result.or_else(|| c10_relation("#[serde(a, b,)] == #[serde(a, b)]", &trailing, &src_serde, "serde-list-with-trailing-comma-dropped"));
         }
@@ -417,12 +450,31 @@ fn c10_eval(words: &[u32], exclude: &[String], stats: Option<&mut Report>) -> Op
         if sig == "unparseable-known-key-drops-list" && known_forms_excluded {
             continue;
         }
-        let mode = Mode { spelling: Spelling::Serde, split_lists: false, serde_first: false, junk: Some((at, w(40 + at) as usize % 4, junk)), trailing_comma: false };
+        let mode = Mode { spelling: Spelling::Serde, split_lists: false, serde_first: false, junk: Some((at, w(40 + at) as usize % 4, junk)), trailing_comma: false, empty_list_at: None };
         let (with_junk, _, adjacent, _) = c10_render(&item, &mode);
         relations += 1;
         nontrivial |= adjacent;
         let reference = if serde_on { &src_serde } else { &src_none };
         result = result.or_else(|| c10_relation(&format!("junk `{junk}` at attribute position {at} is inert"), &with_junk, reference, sig));
+    }
+    // an empty `#[serde()]` (a no-op for serde) in front of the other attributes of one position
+    {
+        let at = (w(80) as usize) % positions.max(1);
+        let mode = Mode { spelling: Spelling::Serde, split_lists: w(81) % 2 == 0, serde_first: false, junk: None, trailing_comma: false, empty_list_at: Some(at) };
+        let (with_empty, _, _, _) = c10_render(&item, &mode);
+        let (reference, _, _, _) = c10_render(&item, &Mode { empty_list_at: None, ..mode.clone() });
+        relations += 1;
+        let reference = if serde_on { reference } else { src_none.clone() };
+        result = result.or_else(|| c10_relation(&format!("an empty #[serde()] in front of attribute position {at} is inert"), &with_empty, &reference, "empty-serde-list-not-inert"));
+    }
+    // `with` next to `skip`: a skipped field has no binding, so nothing has to be said about its type
+    if serde_on && !exclude.iter().any(|e| e == "serde-with-on-skipped-field-rejected") {
+        for at in c10_skipped_field_positions(&item) {
+            let mode = Mode { spelling: Spelling::Serde, split_lists: false, serde_first: false, junk: Some((at, w(70 + at) as usize % 3, "with = \"some_module\"")), trailing_comma: false, empty_list_at: None };
+            let (with_with, _, _, _) = c10_render(&item, &mode);
+            relations += 1;
+            result = result.or_else(|| c10_relation("#[serde(skip, with = \"m\")] == #[serde(skip)] on a field", &with_with, &src_serde, "serde-with-on-skipped-field-rejected"));
+        }
     }
     if !serde_on {
         relations += 1;
@@ -465,7 +517,7 @@ fn c10_run(tier: &str, seed: u64, exclude: &[String]) -> Report {
                             let mut rr = r.borrow_mut();
                             let f = c10_eval(&words, exclude, Some(&mut rr));
                             let nt = rr.extra.get("last_nontrivial").and_then(|v| v.as_bool()).unwrap_or(false);
-                            let (src, _, _, _) = c10_render(&c10_item(&words), &Mode { spelling: Spelling::Serde, split_lists: false, serde_first: false, junk: None, trailing_comma: false });
+                            let (src, _, _, _) = c10_render(&c10_item(&words), &Mode { spelling: Spelling::Serde, split_lists: false, serde_first: false, junk: None, trailing_comma: false, empty_list_at: None });
                             if nt && distinct.borrow_mut().insert(fnv(&src)) {
                                 rr.nontrivial += 1;
                             }
